@@ -1,1 +1,50 @@
-"""Additional translator fragments (reports, imports, templates); registered into gen.FRAGMENTS."""
+"""Additional translator fragments (matcher structure, reports, imports, templates);
+registered into gen.FRAGMENTS on import."""
+import ast
+
+from . import gen
+from .expr import Unrecognised, find_class, find_method, dotted, Translator
+
+
+def _stmts(body):
+    return [s for s in body if not Translator.is_noise(s)]
+
+
+def frag_matcher_flags(repo):
+    """Structural facts of the seek functions that the matcher proofs depend on."""
+    tree = gen.parse(repo, "abstract_accounting_method.py")
+    cls = find_class(tree, "AbstractFeatureBasedAccountingMethod")
+    fn = find_method(cls, "seek_non_exhausted_acquired_lot")
+    body = _stmts(fn.body)
+    last_if = None
+    for s in body:
+        if isinstance(s, ast.If) and "clear_partial_amount" in ast.unparse(s):
+            last_if = s
+    if last_if is None:
+        raise Unrecognised("feature seek: final selection block not found")
+    if ast.unparse(last_if.test) != "selected_acquired_lot_amount > ZERO and selected_acquired_lot":
+        raise Unrecognised("feature seek: selection test")
+    inner = _stmts(last_if.body)
+    if len(inner) < 2 or ast.unparse(inner[0]) != "lot_candidates.clear_partial_amount(selected_acquired_lot)":
+        raise Unrecognised("feature seek: clear_partial_amount is not first")
+    push = "self.add_selected_lot_to_heap(lot_candidates.acquired_lot_heap, selected_acquired_lot)"
+    mid = inner[1:-1]
+    if not isinstance(inner[-1], ast.Return):
+        raise Unrecognised("feature seek: no return")
+    if len(mid) == 1 and isinstance(mid[0], ast.If) and not mid[0].orelse \
+            and ast.unparse(mid[0].test) == "selected_acquired_lot_amount > taxable_event_amount" \
+            and [ast.unparse(x) for x in _stmts(mid[0].body)] == [push]:
+        always = False
+    elif len(mid) == 1 and ast.unparse(mid[0]) == push:
+        always = True
+    else:
+        raise Unrecognised("feature seek: re-push shape")
+    # set_to_index pushes range(self.to_index, to_index + 1)
+    fcls = find_class(tree, "FeatureBasedAcquiredLotCandidates")
+    sti = ast.unparse(find_method(fcls, "set_to_index"))
+    if "for i in range(self.to_index, to_index + 1)" not in sti:
+        raise Unrecognised("set_to_index range")
+    return f"Definition gen_always_repush : bool := {'true' if always else 'false'}.\n"
+
+
+gen.FRAGMENTS.append(("matcher_flags", frag_matcher_flags, None))
